@@ -9,5 +9,6 @@ git diff | grep '^[-+]' | grep -v '^+++\|^---' | head -4
 cd /verif && ./check "$id" --tier "$tier" > /verif/.work/try_$id.log 2>&1
 rc=$?
 git -C /repo checkout -- .
+git -C /verif checkout -- evidence/$id.json 2>/dev/null
 grep -E "^VIOLATION|clause=|HELD|VIOLATED|MACHINERY" /verif/.work/try_$id.log | head -4 | cut -c1-260
 echo "RESULT $id $rc"
